@@ -207,6 +207,7 @@ func init() {
 			}
 		})
 		ok := sym.UF("uf_cid_ok", sym.BoolSort, s)
+		m.noteDecoded("uf_cid_ok", s)
 		if m.branch(ok) {
 			bs := sym.UF("uf_cid_bytes", sym.StrSort, s)
 			// a decoded CID is never the undefined CID
@@ -311,6 +312,7 @@ func init() {
 			}
 		})
 		ok := sym.UF("uf_peer_ok", sym.BoolSort, s)
+		m.noteDecoded("uf_peer_ok", s)
 		if m.branch(ok) {
 			bs := sym.UF("uf_peer_bytes", sym.StrSort, s)
 			m.assertPC(sym.Not(sym.Eq(bs, sym.Str(""))))
@@ -329,6 +331,7 @@ func init() {
 		}
 		return func(m *Machine, c *frame, fn *ssa.Function, a []Value) Value {
 			s := m.term(a[0])
+			m.noteDecoded(okN, s)
 			m.addCodecAxioms(s, map[*sym.Term]bool{})
 			constLeaves(s, func(cst *sym.Term) {
 				var v uint64
@@ -639,4 +642,39 @@ func init() {
 		*p = st
 		return Tuple{p, Iface{}}
 	}
+}
+
+// noteDecoded records that a decoder was applied to the string term s on this
+// path; only inputs that reach a decoder are rewritten for native replay.
+func (m *Machine) noteDecoded(okN string, s *sym.Term) {
+	if m.ufArgs == nil {
+		m.ufArgs = map[string][]*sym.Term{}
+	}
+	m.ufArgs[okN] = append(m.ufArgs[okN], s)
+}
+
+func (m *Machine) reachesDecoder(okN string, v *sym.Term) bool {
+	seen := map[*sym.Term]bool{}
+	var walk func(t *sym.Term) bool
+	walk = func(t *sym.Term) bool {
+		if t == v {
+			return true
+		}
+		if t.Const || seen[t] {
+			return false
+		}
+		seen[t] = true
+		for _, a := range t.Args {
+			if walk(a) {
+				return true
+			}
+		}
+		return false
+	}
+	for _, t := range m.ufArgs[okN] {
+		if walk(t) {
+			return true
+		}
+	}
+	return false
 }
